@@ -198,6 +198,7 @@ pub enum Tok {
     F64(f64),     // f
     Try(String),  // t
     Num(f64, Option<usize>), // n
+    NumOrd(f64, Option<usize>), // n…/o
     Cust(String), // c
     Memo(String), // m
     Nil,          // z
@@ -217,8 +218,17 @@ pub fn parse_tok(t: &str) -> Option<Tok> {
         "z" if r.is_empty() => Tok::Nil,
         "n" => {
             let (v, m) = r.split_once('/')?;
+            // `n<v>/<mfd>/o`: the caller's number already carries type = ordinal
+            let (m, ordinal) = match m.strip_suffix("/o") {
+                Some(m) => (m, true),
+                None => (m, false),
+            };
             let m = if m == "-" { None } else { Some(m.parse().ok()?) };
-            Tok::Num(v.parse().ok()?, m)
+            if ordinal {
+                Tok::NumOrd(v.parse().ok()?, m)
+            } else {
+                Tok::Num(v.parse().ok()?, m)
+            }
         }
         _ => return None,
     })
@@ -236,6 +246,14 @@ pub fn tok_value<'a>(t: &'a Tok) -> FluentValue<'a> {
             *v,
             FluentNumberOptions {
                 minimum_fraction_digits: *m,
+                ..Default::default()
+            },
+        )),
+        Tok::NumOrd(v, m) => FluentValue::Number(FluentNumber::new(
+            *v,
+            FluentNumberOptions {
+                minimum_fraction_digits: *m,
+                r#type: fluent_bundle::types::FluentNumberType::Ordinal,
                 ..Default::default()
             },
         )),
